@@ -76,7 +76,9 @@ class Check:
         self.seed = int(seed)
         self.rng = random.Random(self.seed * 1000003 + int(pid[1:]))
         self.t0 = time.time()
-        self.build = os.path.join(VERIF, "build", pid)
+        # one build directory per (property, tree under test): runs against scratch worktrees do not disturb runs on /repo
+        suffix = "" if REPO == "/repo" else "-" + hashlib.sha1(REPO.encode()).hexdigest()[:6]
+        self.build = os.path.join(VERIF, "build", pid + suffix)
         shutil.rmtree(self.build, ignore_errors=True)
         os.makedirs(self.build, exist_ok=True)
         os.makedirs(os.path.join(VERIF, "evidence"), exist_ok=True)
